@@ -68,6 +68,7 @@ class Context:
         self._orig = None
         self.fixtures = Program(fixtures_facts) if fixtures_facts else None
         self.cache = {}
+        self.has_sync = any(n.startswith('sync::') for n in self.prog.bodies)
 
     @property
     def eff(self):
